@@ -174,3 +174,241 @@ package circuitbreaker
 //@   let n := s.summary.successes + s.summary.failures
 //@   ensures [C03.timed.rate.success] (n == 0 ==> result == 0) && result <= 100 && (n > 0 ==> real(result) * real(n) <= 100.0 * real(s.summary.successes) + 0.51 * real(n) && real(result) * real(n) >= 100.0 * real(s.summary.successes) - 0.51 * real(n))
 //@   modifies nothing
+
+// ---------------------------------------------------------------------------------------------
+// States. The threshold decisions read the metrics through the stats interface (observers; the two
+// implementations are verified above against their functional contracts).
+//@ extfunc github.com/failsafe-go/failsafe-go/circuitbreaker.stats.executionCount
+//@   modifies nothing
+//@ extfunc github.com/failsafe-go/failsafe-go/circuitbreaker.stats.failureCount
+//@   modifies nothing
+//@ extfunc github.com/failsafe-go/failsafe-go/circuitbreaker.stats.successCount
+//@   modifies nothing
+//@ extfunc github.com/failsafe-go/failsafe-go/circuitbreaker.stats.failureRate
+//@   modifies nothing
+//@   ensures result <= 100
+//@ extfunc github.com/failsafe-go/failsafe-go/circuitbreaker.stats.successRate
+//@   modifies nothing
+//@   ensures result <= 100
+//@ extfunc github.com/failsafe-go/failsafe-go/circuitbreaker.stats.recordSuccess
+//@   modifies alloftype(countingStats), alloftype(timedStats), alloftype(stat), alloftype(bitset.BitSet)
+//@ extfunc github.com/failsafe-go/failsafe-go/circuitbreaker.stats.recordFailure
+//@   modifies alloftype(countingStats), alloftype(timedStats), alloftype(stat), alloftype(bitset.BitSet)
+//@ extfunc github.com/failsafe-go/failsafe-go/circuitbreaker.stats.reset
+//@   modifies alloftype(countingStats), alloftype(timedStats), alloftype(stat), alloftype(bitset.BitSet)
+
+//@ frozen config.BaseFailurePolicy, config.BaseDelayablePolicy, config.clock, config.stateChangedListener, config.openListener, config.halfOpenListener, config.closeListener, config.failureThreshold, config.failureRateThreshold, config.failureThresholdingCapacity, config.failureExecutionThreshold, config.failureThresholdingPeriod, config.successThreshold, config.successThresholdingCapacity
+//@ frozen eventMetrics.stats
+//@ frozen circuitBreaker.config, closedState.breaker, closedState.stats, openState.breaker, openState.stats, openState.startTime, openState.delay, halfOpenState.breaker, halfOpenState.stats, executor.BaseExecutor, executor.circuitBreaker
+
+// The breaker monitor: the current state and everything reachable from it.
+//@ monitor (*circuitBreaker).mtx
+//@   guards state
+//@   owns countingStats, timedStats, stat, halfOpenState, github.com/bits-and-blooms/bitset.BitSet
+//@   invariant [C03.state.wellformed] stateWF(self)
+//@   premise typeis(self.state, *openState) ==> asref(self.state, *openState).startTime >= 0 && asref(self.state, *openState).startTime <= 4611686018427387904 && asref(self.state, *openState).delay >= 0 && asref(self.state, *openState).delay <= 2305843009213693952
+//@   premise typeis(self.state, *halfOpenState) ==> asref(self.state, *halfOpenState).permittedExecutions <= 1073741824
+
+//@ macro validCfg(c) = c != nil && c.BaseDelayablePolicy != nil && c.clock != nil && c.failureRateThreshold <= 100 && c.failureThreshold <= 1073741824 && c.failureThresholdingCapacity <= 1073741824 && c.failureExecutionThreshold <= 1073741824 && c.successThreshold <= c.successThresholdingCapacity && c.successThresholdingCapacity <= 1073741824 && (c.failureExecutionThreshold >= 1 || c.failureThresholdingCapacity >= 1) && c.failureThreshold <= c.failureThresholdingCapacity && (c.failureThresholdingPeriod == 0 || (c.failureThresholdingPeriod >= 10 && c.failureThresholdingPeriod <= 4611686018427387904))
+//@ macro kindOf(x) = ite(typeis(x, *closedState), 0, ite(typeis(x, *openState), 1, 2))
+//@ macro stateWF(cb) = cb != nil && validCfg(cb.config) && cb.state != nil && (typeis(cb.state, *closedState) || typeis(cb.state, *openState) || typeis(cb.state, *halfOpenState)) && (typeis(cb.state, *closedState) ==> asref(cb.state, *closedState) != nil && asref(cb.state, *closedState).breaker == cb && asref(cb.state, *closedState).stats != nil) && (typeis(cb.state, *openState) ==> asref(cb.state, *openState) != nil && asref(cb.state, *openState).breaker == cb && asref(cb.state, *openState).stats != nil) && (typeis(cb.state, *halfOpenState) ==> asref(cb.state, *halfOpenState) != nil && asref(cb.state, *halfOpenState).breaker == cb && asref(cb.state, *halfOpenState).stats != nil)
+
+//@ func (*closedState).state
+//@   ensures [C03.kind.closed] result == ClosedState
+//@   modifies nothing
+//@ func (*openState).state
+//@   ensures [C03.kind.open] result == OpenState
+//@   modifies nothing
+//@ func (*halfOpenState).state
+//@   ensures [C03.kind.halfopen] result == HalfOpenState
+//@   modifies nothing
+//@ func (*closedState).remainingDelay
+//@   ensures [C03.delay.closed] result == 0
+//@   modifies nothing
+//@ func (*halfOpenState).remainingDelay
+//@   ensures [C03.delay.halfopen] result == 0
+//@   modifies nothing
+//@ func (*closedState).tryAcquirePermit
+//@   ensures [C03.closed.admits] result
+//@   modifies nothing
+
+// open: remaining delay = max(0, delay - elapsed); nothing is admitted before the delay has elapsed
+//@ func (*openState).remainingDelay
+//@   requires s != nil && s.breaker != nil && s.breaker.config != nil && s.breaker.clock != nil && s.startTime >= 0 && s.startTime <= 4611686018427387904 && s.delay >= 0 && s.delay <= 2305843009213693952
+//@   ext now := ret(s.breaker.clock.CurrentUnixNano, 1)
+//@   ensures [C03.delay.open] result == max(0, s.delay - (now - s.startTime))
+//@   modifies calls(s.breaker.clock.CurrentUnixNano)
+
+//@ func (*halfOpenState).tryAcquirePermit
+//@   requires s != nil
+//@   ensures [C04.halfopen.permit] result == (old(s.permittedExecutions) > 0) && s.permittedExecutions == old(s.permittedExecutions) - b2i(result)
+//@   modifies s.permittedExecutions
+
+//@ func (*openState).checkThresholdAndReleasePermit
+//@   ensures [C03.open.check_noop] true
+//@   modifies nothing
+
+// State reachable from the breaker is only touched by breaker code, under the breaker's lock (callbacks that
+// re-entered the breaker would deadlock): it is preserved across the listener / delay-function calls made in between.
+//@ confined circuitBreaker.state, halfOpenState.permittedExecutions, countingStats, timedStats, elem:github.com/failsafe-go/failsafe-go/circuitbreaker.stat, github.com/bits-and-blooms/bitset.BitSet
+
+// ---------------------------------------------------------------------------------------------
+// constructors of the statistics and the three states
+//@ func newTimedStats
+//@   requires bucketCount == 10 && thresholdingPeriod >= 10 && thresholdingPeriod <= 4611686018427387904 && clock != nil
+//@   loop 0 invariant 0 <= i && i <= bucketCount && (forall k int :: 0 <= k && k < i ==> buckets[k].successes == 0 && buckets[k].failures == 0)
+//@   loop 0 decreases bucketCount - i
+//@   ensures [C03.timed.new] fresh(result) && timedInv(result) && result.summary.successes == 0 && result.summary.failures == 0 && result.clock == clock && result.head == 0 && result.bucketNanos == ediv(thresholdingPeriod, 10)
+//@   modifies nothing
+
+//@ func newStats
+//@   requires config != nil && config.clock != nil && (config.failureThresholdingPeriod == 0 || (config.failureThresholdingPeriod >= 10 && config.failureThresholdingPeriod <= 4611686018427387904)) && capacity >= 1 && capacity <= 1073741824
+//@   let timed := supportsTimeBased && config.failureThresholdingPeriod != 0
+//@   ensures [C03.stats.new.timed] timed ==> typeis(result, *timedStats) && fresh(asref(result, *timedStats)) && timedInv(asref(result, *timedStats)) && asref(result, *timedStats).summary.successes == 0 && asref(result, *timedStats).summary.failures == 0
+//@   ensures [C03.stats.new.counting] !timed ==> typeis(result, *countingStats) && fresh(asref(result, *countingStats)) && ringInv(asref(result, *countingStats)) && asref(result, *countingStats).size == capacity && asref(result, *countingStats).m == 0
+//@   modifies nothing
+
+//@ func newClosedState
+//@   requires breaker != nil && validCfg(breaker.config)
+//@   ensures [C03.closed.new] fresh(result) && result.breaker == breaker && result.stats != nil
+//@   ensures [C03.closed.capacity] breaker.failureThresholdingPeriod == 0 ==> typeis(result.stats, *countingStats) && asref(result.stats, *countingStats).size == ite(breaker.failureExecutionThreshold != 0, breaker.failureExecutionThreshold, breaker.failureThresholdingCapacity) && asref(result.stats, *countingStats).m == 0 && ringInv(asref(result.stats, *countingStats))
+//@   ensures [C03.closed.timed] breaker.failureThresholdingPeriod != 0 ==> typeis(result.stats, *timedStats) && timedInv(asref(result.stats, *timedStats))
+//@   modifies nothing
+
+//@ func newOpenState
+//@   requires breaker != nil && breaker.config != nil && breaker.clock != nil && previousState != nil
+//@   ensures [C03.open.new] fresh(result) && result.breaker == breaker && result.stats == previousState && result.delay == delay && result.startTime == ret(breaker.clock.CurrentUnixNano, 1)
+//@   modifies calls(breaker.clock.CurrentUnixNano)
+
+// trial capacity: success capacity, else the execution threshold, else the failure capacity
+//@ macro trialCapacity(c) = ite(c.successThresholdingCapacity != 0, c.successThresholdingCapacity, ite(c.failureExecutionThreshold != 0, c.failureExecutionThreshold, c.failureThresholdingCapacity))
+//@ func newHalfOpenState
+//@   requires breaker != nil && validCfg(breaker.config)
+//@   ensures [C03.halfopen.new+C04.halfopen.capacity] fresh(result) && result.breaker == breaker && result.permittedExecutions == trialCapacity(breaker) && typeis(result.stats, *countingStats) && asref(result.stats, *countingStats).size == trialCapacity(breaker) && asref(result.stats, *countingStats).m == 0 && ringInv(asref(result.stats, *countingStats))
+//@   modifies nothing
+
+// ---------------------------------------------------------------------------------------------
+// transitionTo: no-op when already there; otherwise a fresh state of the requested kind, the delay taken from the
+// delay function unless it returns -1 (or there is no execution), then the specific listener and the generic one,
+// each once, with an event describing previous kind -> new kind and carrying the previous state's metrics.
+//@ func (*circuitBreaker).transitionTo
+//@   requires held(mutexof(cb, "mtx"))
+//@   requires stateWF(cb) && (newState == ClosedState || newState == OpenState || newState == HalfOpenState)
+//@   premise listener == nil || cb.stateChangedListener == nil || listener != cb.stateChangedListener
+//@   oldlet prev := cb.state
+//@   oldlet k0 := kindOf(cb.state)
+//@   let moved := k0 != newState
+//@   ext computed := ret(cb.DelayFunc, 1)
+//@   let useFunc := exec != nil && cb.DelayFunc != nil && computed != -1
+//@   ensures [C03.transition.noop] !moved ==> cb.state == prev && ncalls(listener) == 0 && ncalls(cb.stateChangedListener) == 0
+//@   ensures [C03.transition.kind] moved ==> kindOf(cb.state) == newState && stateWF(cb)
+//@   ensures [C03.transition.fresh] moved ==> fresh(payload(cb.state))
+//@   ensures [C03.transition.open] moved && newState == OpenState ==> asref(cb.state, *openState).stats == prev && asref(cb.state, *openState).delay == ite(useFunc, computed, cb.Delay) && asref(cb.state, *openState).startTime == ret(cb.clock.CurrentUnixNano, 1)
+//@   ensures [C03.transition.halfopen+C04.halfopen.capacity] moved && newState == HalfOpenState ==> asref(cb.state, *halfOpenState).permittedExecutions == trialCapacity(cb) && asref(asref(cb.state, *halfOpenState).stats, *countingStats).m == 0
+//@   ensures [C03.transition.closed] moved && newState == ClosedState ==> (cb.failureThresholdingPeriod == 0 ==> asref(asref(cb.state, *closedState).stats, *countingStats).m == 0)
+//@   ensures [C16.breaker.specific_listener] moved && listener != nil ==> ncalls(listener) == 1 && arg(listener, 1, 0) == k0 && arg(listener, 1, 1) == newState
+//@   ensures [C16.breaker.generic_listener] moved && cb.stateChangedListener != nil ==> ncalls(cb.stateChangedListener) == 1 && arg(cb.stateChangedListener, 1, 0) == k0 && arg(cb.stateChangedListener, 1, 1) == newState
+//@   ensures [C16.breaker.event_metrics] moved && listener != nil ==> cast(arg(listener, 1, 2), *eventMetrics).stats == prev
+//@   ensures [C16.breaker.listener_order] moved && listener != nil && cb.stateChangedListener != nil ==> tickof(listener, 1) < tickof(cb.stateChangedListener, 1)
+//@   havoc
+//@   modifies cb.state, calls(listener), calls(cb.stateChangedListener), calls(cb.DelayFunc), calls(cb.clock.CurrentUnixNano), calls(exec.Context)
+
+// closed: opens exactly when the execution threshold is met and the rate (or count) threshold is met
+//@ func (*closedState).checkThresholdAndReleasePermit
+//@   requires s != nil && held(mutexof(s.breaker, "mtx")) && s.breaker != nil && stateWF(s.breaker) && typeis(s.breaker.state, *closedState) && asref(s.breaker.state, *closedState) == s && s.stats != nil
+//@   premise s.breaker.openListener == nil || s.breaker.stateChangedListener == nil || s.breaker.openListener != s.breaker.stateChangedListener
+//@   ext n := ret(s.stats.executionCount, 1)
+//@   let cfg := s.breaker
+//@   let met := n >= cfg.failureExecutionThreshold && ((cfg.failureRateThreshold != 0 && ret(s.stats.failureRate, 1) >= cfg.failureRateThreshold) || (cfg.failureRateThreshold == 0 && ret(s.stats.failureCount, 1) >= cfg.failureThreshold))
+//@   ensures [C03.closed.opens] met ==> typeis(s.breaker.state, *openState) && asref(s.breaker.state, *openState).stats == asiface(s)
+//@   ensures [C03.closed.stays] !met ==> s.breaker.state == old(s.breaker.state)
+//@   ensures [C16.breaker.open_event] (met && s.breaker.openListener != nil ==> ncalls(s.breaker.openListener) == 1) && (!met ==> ncalls(s.breaker.openListener) == 0 && ncalls(s.breaker.stateChangedListener) == 0)
+//@   havoc
+//@   modifies s.breaker.state, calls(s.stats.executionCount), calls(s.stats.failureRate), calls(s.stats.failureCount), calls(s.breaker.openListener), calls(s.breaker.stateChangedListener), calls(s.breaker.DelayFunc), calls(s.breaker.clock.CurrentUnixNano), calls(exec.Context)
+
+// open: nothing is admitted before the delay has elapsed; the first request at or after it half-opens and takes a trial permit
+//@ func (*openState).tryAcquirePermit
+//@   requires s != nil && held(mutexof(s.breaker, "mtx")) && s.breaker != nil && stateWF(s.breaker) && typeis(s.breaker.state, *openState) && asref(s.breaker.state, *openState) == s
+//@   requires s.startTime >= 0 && s.startTime <= 4611686018427387904 && s.delay >= -1 && s.delay <= 4611686018427387904
+//@   premise s.breaker.halfOpenListener == nil || s.breaker.stateChangedListener == nil || s.breaker.halfOpenListener != s.breaker.stateChangedListener
+//@   ext now := ret(s.breaker.clock.CurrentUnixNano, 1)
+//@   let elapsed := now - s.startTime >= s.delay
+//@   ensures [C03.open.stays_open+C04.open.refuses] !elapsed ==> !result && s.breaker.state == old(s.breaker.state) && ncalls(s.breaker.halfOpenListener) == 0 && ncalls(s.breaker.stateChangedListener) == 0
+//@   ensures [C03.open.half_opens] elapsed ==> typeis(s.breaker.state, *halfOpenState) && result == (trialCapacity(s.breaker) > 0) && asref(s.breaker.state, *halfOpenState).permittedExecutions == trialCapacity(s.breaker) - b2i(result)
+//@   havoc
+//@   modifies s.breaker.state, alloftype(halfOpenState), calls(s.breaker.clock.CurrentUnixNano), calls(s.breaker.halfOpenListener), calls(s.breaker.stateChangedListener), calls(s.breaker.DelayFunc)
+
+// half-open: close when the success side is decided, else open when the failure side is decided; then the trial permit goes back
+//@ macro hoSuccessSide(c, sc, fc, n, sr, fr) = ite(c.successThreshold != 0, sc >= c.successThreshold, ite(c.failureRateThreshold != 0, n >= c.failureExecutionThreshold && sr > 100 - c.failureRateThreshold, sc > c.failureThresholdingCapacity - c.failureThreshold))
+//@ macro hoFailureSide(c, sc, fc, n, sr, fr) = ite(c.successThreshold != 0, fc > c.successThresholdingCapacity - c.successThreshold, ite(c.failureRateThreshold != 0, n >= c.failureExecutionThreshold && fr >= c.failureRateThreshold, fc >= c.failureThreshold))
+//@ func (*halfOpenState).checkThresholdAndReleasePermit
+//@   requires s != nil && s.breaker != nil && held(mutexof(s.breaker, "mtx")) && stateWF(s.breaker) && typeis(s.breaker.state, *halfOpenState) && asref(s.breaker.state, *halfOpenState) == s && s.stats != nil
+//@   requires s.permittedExecutions <= 1073741824
+//@   premise (s.breaker.openListener == nil || s.breaker.stateChangedListener == nil || s.breaker.openListener != s.breaker.stateChangedListener) && (s.breaker.closeListener == nil || s.breaker.stateChangedListener == nil || s.breaker.closeListener != s.breaker.stateChangedListener) && (s.breaker.openListener == nil || s.breaker.closeListener == nil || s.breaker.openListener != s.breaker.closeListener)
+//@   let sx := hoSuccessSide(s.breaker, ret(s.stats.successCount, 1), ret(s.stats.failureCount, 1), ret(s.stats.executionCount, 1), ret(s.stats.successRate, 1), ret(s.stats.failureRate, 1))
+//@   let fx := hoFailureSide(s.breaker, ret(s.stats.successCount, 1), ret(s.stats.failureCount, 1), ret(s.stats.executionCount, 1), ret(s.stats.successRate, 1), ret(s.stats.failureRate, 1))
+//@   ensures [C03.halfopen.closes] sx ==> typeis(s.breaker.state, *closedState)
+//@   ensures [C03.halfopen.opens] !sx && fx ==> typeis(s.breaker.state, *openState)
+//@   ensures [C03.halfopen.undecided] !sx && !fx ==> s.breaker.state == old(s.breaker.state)
+//@   ensures [C04.halfopen.permit_back] s.permittedExecutions == old(s.permittedExecutions) + 1
+//@   havoc
+//@   modifies s.breaker.state, s.permittedExecutions, calls(s.stats.successCount), calls(s.stats.failureCount), calls(s.stats.executionCount), calls(s.stats.successRate), calls(s.stats.failureRate), calls(s.breaker.openListener), calls(s.breaker.closeListener), calls(s.breaker.stateChangedListener), calls(s.breaker.DelayFunc), calls(s.breaker.clock.CurrentUnixNano), calls(exec.Context)
+
+// the trial phase decides within its capacity (count based configurations; the rate case is a bounded check, see DESIGN)
+//@ lemma [C03.trial.decides.success_threshold] forall sc int, fc int, cap int, st int :: sc >= 0 && fc >= 0 && sc + fc == cap && st >= 1 && st <= cap ==> sc >= st || fc > cap - st
+//@ lemma [C03.trial.decides.failure_threshold] forall sc int, fc int, cap int, thr int :: sc >= 0 && fc >= 0 && sc + fc == cap && thr <= cap ==> fc >= thr || sc > cap - thr
+
+// ---------------------------------------------------------------------------------------------
+// The public methods: one critical section each.
+//@ func (*circuitBreaker).TryAcquirePermit
+//@   locks cb
+//@   requires cb != nil && !held(mutexof(cb, "mtx"))
+//@   premise cb.halfOpenListener == nil || cb.stateChangedListener == nil || cb.halfOpenListener != cb.stateChangedListener
+//@   ext now := ret(cb.clock.CurrentUnixNano, 1)
+//@   let k0 := old(kindOf(cb.state))
+//@   let os := old(asref(cb.state, *openState))
+//@   let hs := old(asref(cb.state, *halfOpenState))
+//@   ensures [C04.closed.admits] k0 == ClosedState ==> result && cb.state == old(cb.state)
+//@   ensures [C04.open.refuses] k0 == OpenState && now - old(os.startTime) < old(os.delay) ==> !result && cb.state == old(cb.state)
+//@   ensures [C04.open.halfopens] k0 == OpenState && now - old(os.startTime) >= old(os.delay) ==> typeis(cb.state, *halfOpenState) && result == (trialCapacity(cb) > 0) && asref(cb.state, *halfOpenState).permittedExecutions == trialCapacity(cb) - b2i(result)
+//@   ensures [C04.halfopen.bounded] k0 == HalfOpenState ==> result == (old(hs.permittedExecutions) > 0) && hs.permittedExecutions == old(hs.permittedExecutions) - b2i(result) && cb.state == old(cb.state)
+//@   havoc
+//@   modifies cb.state, alloftype(halfOpenState), held(mutexof(cb, "mtx")), calls(cb.clock.CurrentUnixNano), calls(cb.halfOpenListener), calls(cb.stateChangedListener), calls(cb.DelayFunc)
+
+//@ func (*circuitBreaker).State
+//@   locks cb
+//@   requires cb != nil && !held(mutexof(cb, "mtx"))
+//@   ensures [C03.api.state] result == old(kindOf(cb.state))
+//@   modifies held(mutexof(cb, "mtx"))
+
+//@ func (*circuitBreaker).Open
+//@   locks cb
+//@   requires cb != nil && !held(mutexof(cb, "mtx"))
+//@   premise cb.openListener == nil || cb.stateChangedListener == nil || cb.openListener != cb.stateChangedListener
+//@   ensures [C03.api.open] typeis(cb.state, *openState) && (old(kindOf(cb.state)) != OpenState ==> asref(cb.state, *openState).delay == cb.Delay)
+//@   ensures [C16.breaker.manual_open] (old(kindOf(cb.state)) != OpenState && cb.openListener != nil ==> ncalls(cb.openListener) == 1) && (old(kindOf(cb.state)) == OpenState ==> ncalls(cb.openListener) == 0)
+//@   havoc
+//@   modifies cb.state, held(mutexof(cb, "mtx")), calls(cb.openListener), calls(cb.stateChangedListener), calls(cb.DelayFunc), calls(cb.clock.CurrentUnixNano)
+
+//@ func (*circuitBreaker).HalfOpen
+//@   locks cb
+//@   requires cb != nil && !held(mutexof(cb, "mtx"))
+//@   premise cb.halfOpenListener == nil || cb.stateChangedListener == nil || cb.halfOpenListener != cb.stateChangedListener
+//@   ensures [C03.api.halfopen] typeis(cb.state, *halfOpenState) && (old(kindOf(cb.state)) != HalfOpenState ==> asref(cb.state, *halfOpenState).permittedExecutions == trialCapacity(cb))
+//@   havoc
+//@   modifies cb.state, held(mutexof(cb, "mtx")), calls(cb.halfOpenListener), calls(cb.stateChangedListener), calls(cb.DelayFunc), calls(cb.clock.CurrentUnixNano)
+
+//@ func (*circuitBreaker).Close
+//@   locks cb
+//@   requires cb != nil && !held(mutexof(cb, "mtx"))
+//@   premise cb.closeListener == nil || cb.stateChangedListener == nil || cb.closeListener != cb.stateChangedListener
+//@   ensures [C03.api.close] typeis(cb.state, *closedState)
+//@   havoc
+//@   modifies cb.state, held(mutexof(cb, "mtx")), calls(cb.closeListener), calls(cb.stateChangedListener), calls(cb.DelayFunc), calls(cb.clock.CurrentUnixNano)
+
+//@ func (*circuitBreaker).RemainingDelay
+//@   locks cb
+//@   requires cb != nil && !held(mutexof(cb, "mtx"))
+//@   ext now := ret(cb.clock.CurrentUnixNano, 1)
+//@   ensures [C03.api.remaining_delay] (old(kindOf(cb.state)) != OpenState ==> result == 0) && (old(kindOf(cb.state)) == OpenState ==> result == max(0, old(asref(cb.state, *openState).delay) - (now - old(asref(cb.state, *openState).startTime))))
+//@   modifies held(mutexof(cb, "mtx")), calls(cb.clock.CurrentUnixNano)
